@@ -428,6 +428,31 @@ func genC02(r *Rng, tier string, emit func(string, Tok)) {
 			Tables: true, Fillers: r.Bool(), SmallChunks: r.Chance(1, 3), Repeats: r.Intn(3)})
 		emit("stream", scenario{kind: r.Intn(2), optSize: 188, fault: -1, data: m.bytes(), ops: []int{3}}.tok())
 	}
+	// bounded PES units at the top of the 16-bit PES_packet_length range (every value 65520..65535 in the thorough
+	// tier), followed by another unit of the PID so that they are flushed by a unit start, not by the end of the stream
+	tops := []int{65529, 65530, 65533, 65535}
+	if tier == "thorough" {
+		tops = nil
+		for t := 65520; t <= 65535; t++ {
+			tops = append(tops, t)
+		}
+	}
+	for _, t := range tops {
+		m := genRefStream(r, streamOpts{PESPIDs: 2, UnitsPerPID: 2, MaxPES: 300, Tables: true, PESTotals: []int{t, 200 + r.Intn(100)}})
+		emit("pes-length-top", scenario{kind: r.Intn(2), optSize: 188, fault: -1, data: m.bytes(), ops: []int{3}}.tok())
+	}
+	// one unit spread over several thousand packets (one or two payload bytes each), other PIDs interleaved
+	for _, np := range scaleList(tier, []int{4100}, []int{1000, 4096, 4097, 8200, 16400}) {
+		m := genRefStream(r, streamOpts{PESPIDs: 2, UnitsPerPID: 2, MaxPES: 300, Tables: true, LongUnit: np})
+		emit("long-unit", scenario{kind: 1, optSize: 188, fault: -1, data: m.bytes(), ops: []int{3}}.tok())
+	}
+}
+
+func scaleList(tier string, quick, thorough []int) []int {
+	if tier == "thorough" {
+		return thorough
+	}
+	return quick
 }
 
 // unitsOf re-derives the unit model from the bytes of a reference stream: per PID, the list of unit payloads
